@@ -198,6 +198,10 @@ class Program:
         if self._inlined is None:
             self._inlined = {}
         C = self._inlined
+        import sa.inline as _inl
+        # plain properties (not cached ones) are re-evaluated on every read (I / F build a new generator each time)
+        _inl.VOLATILE_ATTRS = {f.name for f in self.funcs.values() if "property" in f.decorators and "cached_property" not in f.decorators
+                               and any(isinstance(n, (ast.Yield, ast.YieldFrom)) for n in walk_live(f.node))}
 
         def view(key, tr):
             if key not in C:
